@@ -8,9 +8,9 @@ import vlib
 META = {
     "property_id": "C16",
     "level": "proof",
-    "technique": "Coq theorems over a hand-written recogniser of the env-template pattern (accepts exactly the documented grammar, rejects every string that is not template-shaped), the three-way resolution, and its composition with the dimension resolution of C03 + in-kernel correspondence with the real gconfig on generated templates/near-misses placed in C03 documents under set / set-empty / unset environments",
+    "technique": "Coq theorems over a hand-written recogniser of the env-template pattern (accepts exactly the documented grammar, rejects every string that is not template-shaped), the three-way resolution, and its composition with the dimension resolution of C03 + two translator ties (the pattern literal read with regexp/syntax = the regular expression whose language is proved to be the matcher's; MatchAndResolve regenerated as Gallina = the three-way resolution) + in-kernel correspondence with the real gconfig on generated templates/near-misses placed in C03 documents under set / set-empty / unset environments",
     "design_ref": "DESIGN.md §4 C16",
-    "level_text": "Proof: TmplProofs.v characterises the language of the hand-written matcher match_env (mirror of the anchored pattern in yaml_templates.go): it accepts a string iff the string is `${{` ws `env:` ws NAME ws [`|`] ws [DEFAULT] ws `}}` and returns the maximal NAME and the trimmed DEFAULT; every string of the documented grammar (any name in [A-Za-z0-9_]+, any default, any inner spacing) yields exactly (name, default); strings with leading/trailing text, single braces or without `env:` are rejected and left untouched; resolution is value-if-set (even empty), else default with surrounding double quotes stripped, else an error; and loading = template pass over the *resolved* document of C03, so a template in an unselected branch can never fail loading (Props/C16.v, closed under the global context). Tied to the source by loading generated documents through the public API and judging each observation inside Coq.",
+    "level_text": "Proof: TmplProofs.v characterises the language of the hand-written matcher match_env (mirror of the anchored pattern in yaml_templates.go): it accepts a string iff the string is `${{` ws `env:` ws NAME ws [`|`] ws [DEFAULT] ws `}}` and returns the maximal NAME and the trimmed DEFAULT; every string of the documented grammar (any name in [A-Za-z0-9_]+, any default, any inner spacing) yields exactly (name, default); strings with leading/trailing text, single braces or without `env:` are rejected and left untouched; resolution is value-if-set (even empty), else default with surrounding double quotes stripped, else an error; and loading = template pass over the *resolved* document of C03, so a template in an unselected branch can never fail loading (Props/C16.v, closed under the global context); the language of the matcher is proved equal to the language of the source's regular expression under the textbook matching relation. Tied to the source (T) by xlate_tmplre (pattern literal -> regular-expression term, Tie_C16: gen_pattern = hand_pattern) and xlate_gconf -set templates (MatchAndResolve -> Gallina, Tie_C16_resolve), and (C) by loading generated documents through the public API and judging each observation inside Coq.",
     "level_note": "Trusted: Coq 8.16.1 kernel + vm_compute; Go's regexp engine implements the pattern as the hand-written recogniser does (validated by the correspondence run, not proved); fidelity of TmplModel.v/GConfModel.v (correspondence); yaml.v3 round trip; os.LookupEnv recorded per case. No axioms.",
     "allowed_axioms": [],
 }
